@@ -11,6 +11,7 @@ import (
 	"strconv"
 	"strings"
 	"sync"
+	"sync/atomic"
 
 	restful "github.com/emicklei/go-restful/v3"
 )
@@ -444,6 +445,8 @@ func RemoveRoutesLike(ws *restful.WebService, svc *SvcSpec, victimID int) (gone 
 	return gone, err
 }
 
+var switchedCount int32
+
 func BuildWS(t *Table, o BuildOpts) (*restful.Container, []*restful.WebService) {
 	wss := make([]*restful.WebService, len(t.Svcs))
 	c := restful.NewContainer()
@@ -452,17 +455,27 @@ func BuildWS(t *Table, o BuildOpts) (*restful.Container, []*restful.WebService) 
 		defaultContainerUsed = true
 		c = restful.DefaultContainer
 	}
+	late := false
 	if o.Switched {
 		if o.Router == "jsr311" {
 			c.Router(restful.CurlyRouter{})
 		} else {
 			c.Router(restful.RouterJSR311{})
 		}
+		// every other switched container gets its final router only AFTER the WebServices were added
+		late = atomic.AddInt32(&switchedCount, 1)%2 == 0
 	}
-	if o.Router == "jsr311" {
-		c.Router(restful.RouterJSR311{})
+	setRouter := func() {
+		if o.Router == "jsr311" {
+			c.Router(restful.RouterJSR311{})
+		} else {
+			c.Router(restful.CurlyRouter{})
+		}
+	}
+	if !late {
+		setRouter()
 	} else {
-		c.Router(restful.CurlyRouter{})
+		defer setRouter()
 	}
 	if o.SelFilters {
 		if useDefault {
